@@ -148,6 +148,8 @@ fn augment(
         while w != source {
             let v = back[&w];
             if result.contains(&(w, v)) {
+                #[cfg(feature = "verif")]
+                crate::verif_hooks::hit("cutsets.flow_cancelled");
                 result.remove(&(w, v));
             } else {
                 result.insert((v, w));
@@ -155,6 +157,8 @@ fn augment(
             w = v;
         }
 
+        #[cfg(feature = "verif")]
+        crate::verif_hooks::hit("cutsets.augmentation");
         return (Some(result), seen);
     } else {
         return (None, seen);
